@@ -1,308 +1,74 @@
-import CalicoVerif.Model.C09
+import CalicoVerif.Proofs.C09
 /-!
 C09 — Endpoint verdicts follow tier, pass, staged and profile semantics.
 
-Proved here for all inputs: the policy-group chain (`PolicyGroupToIptablesChains`, return
-stride 5, staged policies skipped) is exactly "run the enforced policies in order until one of
-them sets the accept or pass bit or terminates the packet" — for groups of ANY length and any
-behaviour of the policy chains.  The endpoint-chain tier loop, end-of-tier drop and profile
-section are NOT proved in Lean; they are covered by the text-exact correspondence and by
-evaluating the real rendered endpoint / group / policy / profile chains against the reference
-verdict `endpointVerdict` (see the harness oracle `endpoint-verdict`).
+Property theorems (proofs and intermediate lemmas: `CalicoVerif.Proofs.C09`):
+
+* `endpoint_chain_verdict` — END TO END: over a chain set holding the rendered workload endpoint
+  chain, the policy-group chains, the policy chains and the profile chains, evaluation of the
+  endpoint chain reaches exactly the reference verdict `endpointVerdict` (RETURN with the accept
+  bit = allow, DROP/REJECT = deny), for ANY number of tiers, groups (inline or with their own chain,
+  any length, i.e. across the return stride), enforced and staged policies, profiles; flow logs
+  on/off; both dataplanes.  C08's per-rule theorem enters as the hypothesis `RuleExact` per rule,
+  discharged by `ruleExact_of_le2` for every rule with at most two positive match blocks.
+* the pieces, each for all inputs: `policy_group_chain_exact` (stride 5, staged skipped),
+  `tier_rules_exact` / `tiers_exact` (tier loop, end-of-tier drop vs default Pass),
+  `profile_section_exact`, `policy_chain_shape` / `profile_chain_shape` (a policy / profile chain
+  behaves like its first matching rule, incl. stripping of trailing RETURNs).
+
+Explicit limits of the end-to-end statement (hypotheses): the "normal" chain type, admin-up, no
+failsafe chain, a packet that is not ESTABLISHED/RELATED/INVALID and not hit by the encap drop
+rules, entry mark with the drop bit clear, distinct chain lookups as given, and NO `pass` RULE IN A
+PROFILE: the profile chains are entered with the pass bit possibly still set by the last tier and
+the pass bit is never cleared between profiles, so a profile containing a pass rule is not rendered
+exactly (see the report; C12 owns the profile-pass question).
 -/
 namespace CalicoVerif.C09
 open CalicoVerif.Netfilter CalicoVerif.Policy CalicoVerif.C08
 
-/-- reference behaviour of a policy group: enforced policies in order, stop at the first verdict -/
-def seqEval (cfg : Cfg) (call : String → Mark → Result) : List Pol → Mark → Result
-  | [], m => .returned m
-  | p :: ps, m =>
-    if p.staged then seqEval cfg call ps m
-    else if m &&& (cfg.markPass ||| cfg.markAccept) ≠ 0 then .returned m
-    else match call p.chain m with
-      | .returned m' => seqEval cfg call ps m'
-      | other => other
+/-! ### the hypothesis "no pass rule in a profile" is necessary: a finding -/
 
-theorem seqEval_of_verdict (cfg : Cfg) (call : String → Mark → Result) (ps : List Pol) (m : Mark)
-    (h : m &&& (cfg.markPass ||| cfg.markAccept) ≠ 0) : seqEval cfg call ps m = .returned m := by
-  induction ps with
-  | nil => rfl
-  | cons p ps ih =>
-    simp only [seqEval]
-    split
-    · exact ih
-    · simp [h]
+def wPolRules : List Policy.Rule := [{ action := "pass", protocol := some (.name "udp") }]
+def wProfRules : List Policy.Rule :=
+  [{ action := "pass", protocol := some (.name "tcp") }, { action := "allow", protocol := some (.name "udp") }]
+def wGroup : Group := { chain := "g", pols := [{ chain := "pol", staged := false }] }
+def wTiers : List Tier := [{ name := "tier0", defaultPass := false, groups := [wGroup] }]
+def wEnv9 : Env := { protoNum := fun s => if s == "udp" then some 17 else if s == "tcp" then some 6 else none }
+def wUdp : Packet := { proto := 17 }
 
-theorem groupRulesFrom_exact (cfg : Cfg) (env : Env) (call : String → Mark → Result) (pkt : Packet)
-    (ps : List Pol) (k : Nat) (m : Mark)
-    (h0 : k = 0 → m &&& (cfg.markPass ||| cfg.markAccept) = 0) :
-    runRules env call pkt (groupRulesFrom cfg k ps) m = seqEval cfg call ps m := by
-  induction ps generalizing k m with
-  | nil => simp [groupRulesFrom, runRules, seqEval]
-  | cons p ps ih =>
-    simp only [groupRulesFrom, seqEval]
-    by_cases hs : p.staged = true
-    · simp only [hs, if_true]; exact ih k m h0
-    · simp only [hs, Bool.false_eq_true, if_false]
-      by_cases hm : m &&& (cfg.markPass ||| cfg.markAccept) = 0
-      · -- no verdict yet: the return rule (if any) is skipped, the jump is taken
-        have hbeq : (m &&& (cfg.markPass ||| cfg.markAccept) == 0) = true := by simp [hm]
-        have hjump : runRules env call pkt (groupJump cfg k p.chain :: groupRulesFrom cfg (k + 1) ps) m =
-            (match call p.chain m with
-              | .returned m' => seqEval cfg call ps m'
-              | other => other) := by
-          have hmatch : (groupJump cfg k p.chain).matches env pkt m = true := by
-            unfold groupJump Rule.matches
-            split <;> simp [Clause.matches, xorb, hm]
-          have hact : (groupJump cfg k p.chain).action = .jump p.chain := rfl
-          rw [runRules, if_pos hmatch, hact]
-          simp only [resolveAction]
-          cases hc : call p.chain m with
-          | returned m' => simp only; exact ih (k + 1) m' (by omega)
-          | verdict v mk => rfl
-          | missing c => rfl
-          | outOfFuel => rfl
-        simp only [hm, ne_eq, not_true_eq_false, if_false]
-        by_cases hk : k ≠ 0 ∧ k % 5 = 0
-        · simp only [hk, and_self, if_true, List.cons_append, List.nil_append, ne_eq, not_false_eq_true]
-          rw [runRules]
-          have : (returnOnVerdict cfg).matches env pkt m = false := by
-            simp [returnOnVerdict, Rule.matches, Clause.matches, xorb, hm]
-          rw [if_neg (by simp [this])]
-          exact hjump
-        · simp only [hk, if_false, List.nil_append, List.cons_append]
-          exact hjump
-      · -- a verdict bit is already set: nothing more is evaluated
-        have hk0 : k ≠ 0 := fun hk => hm (h0 hk)
-        have hbeq : (m &&& (cfg.markPass ||| cfg.markAccept) == 0) = false := by simpa using hm
-        simp only [hm, ne_eq, not_false_eq_true, if_true]
-        by_cases hk : k % 5 = 0
-        · simp only [hk0, hk, ne_eq, not_false_eq_true, and_self, if_true, List.cons_append, List.nil_append]
-          rw [runRules]
-          have : (returnOnVerdict cfg).matches env pkt m = true := by
-            simpa [returnOnVerdict, Rule.matches, Clause.matches, xorb] using hm
-          rw [if_pos this]
-          simp [returnOnVerdict, resolveAction]
-        · simp only [hk, and_false, if_false, List.nil_append, List.cons_append]
-          rw [runRules]
-          have : (groupJump cfg k p.chain).matches env pkt m = false := by
-            simpa [groupJump, hk, Rule.matches, Clause.matches, xorb] using hm
-          rw [if_neg (by simp [this])]
-          rw [ih (k + 1) m (by omega)]
-          exact seqEval_of_verdict cfg call ps m hm
+def wChains : List Chain :=
+  [ { name := "ep", rules := (endpointChain {} {} "ep" wTiers ["prof"]).rules },
+    { name := "pol", rules := (protoRulesToRules {} {} false wPolRules "c").getD [] },
+    { name := "prof", rules := (protoRulesToRules {} { owner := 'R' } false wProfRules "c").getD [] } ]
 
-/-- **The policy-group chain is exact for groups of any length**: entered with the accept and pass
-bits clear (as the endpoint chain guarantees), it runs the enforced policies in order and stops
-at the first one that sets a verdict bit or terminates the packet; staged policies never run. -/
-theorem policy_group_chain_exact (cfg : Cfg) (env : Env) (call : String → Mark → Result) (pkt : Packet)
-    (g : Group) (m : Mark) (h0 : m &&& (cfg.markPass ||| cfg.markAccept) = 0) :
-    runRules env call pkt (policyGroupChain cfg g).rules m = seqEval cfg call g.pols m :=
-  groupRulesFrom_exact cfg env call pkt g.pols 0 m (fun _ => h0)
+/-- The tier passes the UDP packet, the profile's second rule allows it — the reference verdict is
+allow — but the rendered chains DROP it: the pass bit (0x100) set by the tier makes the profile
+chain return at its first (non-matching) pass rule. -/
+theorem profile_pass_stale_false :
+    endpointVerdict [([policyOutcome wEnv9 false wUdp wPolRules], false)] [policyOutcome wEnv9 false wUdp wProfRules]
+      = .allow ∧
+    evalChain wEnv9 wChains wUdp 4 "ep" 0 = .verdict .drop 0x100#32 := by
+  constructor
+  · decide
+  · decide +kernel
 
-/-- staged policies never influence the group's result -/
-theorem seqEval_ignores_staged (cfg : Cfg) (call : String → Mark → Result) (ps : List Pol) (m : Mark) :
-    seqEval cfg call ps m = seqEval cfg call (ps.filter (!·.staged)) m := by
-  induction ps generalizing m with
-  | nil => rfl
-  | cons p ps ih =>
-    by_cases hs : p.staged = true
-    · simp [seqEval, hs, ih]
-    · have hs' : p.staged = false := by simpa using hs
-      simp only [seqEval, hs', Bool.false_eq_true, if_false, List.filter_cons, Bool.not_false, if_true]
-      split
-      · rfl
-      · cases call p.chain m <;> simp [ih]
+/-! non-vacuity of the hypotheses -/
+example : MarksOK {} := by constructor <;> decide
+example : VBits {} := by constructor <;> decide
+example : VD {} := by constructor <;> decide
 
-/-- reference behaviour of the profile section: profiles in order; the first one that returns with
-the accept bit set wins, a terminating profile rule terminates, and if none accepts the packet
-is denied. -/
-def profSeq (cfg : Cfg) (call : String → Mark → Result) : List String → Mark → Result
-  | [], m => .verdict (if cfg.reject then .reject else .drop) m
-  | p :: ps, m =>
-    match call p m with
-    | .returned m' => if m' &&& cfg.markAccept == cfg.markAccept then .returned m' else profSeq cfg call ps m'
-    | other => other
-
-/-- **The profile section of the endpoint chain is exact for any number of profiles**: anything
-no profile accepts is denied (fail closed). -/
-theorem profile_section_exact (cfg : Cfg) (e : EpCfg) (env : Env) (call : String → Mark → Result)
-    (pkt : Packet) (profiles : List String) (m : Mark) :
-    runRules env call pkt (profileRules cfg e profiles) m = profSeq cfg call profiles m := by
-  induction profiles generalizing m with
-  | nil =>
-    cases hf : cfg.flowLogs <;> cases hr : cfg.reject <;>
-      simp [profileRules, profSeq, runRules, Rule.matches, resolveAction, applyMark, hf, hr, C08.denyAction]
-  | cons p ps ih =>
-    have hcons : profileRules cfg e (p :: ps) =
-        ({ action := .jump p } : Netfilter.Rule) ::
-        { clauses := [.mark false cfg.markAccept cfg.markAccept], action := .ret,
-          comments := ["Return if profile accepted"] } :: profileRules cfg e ps := by
-      simp [profileRules]
-    rw [hcons, runRules]
-    simp only [Rule.matches, List.all_nil, if_true, resolveAction, profSeq]
-    cases hc : call p m with
-    | returned m' =>
-      simp only
-      rw [runRules]
-      by_cases ha : (m' &&& cfg.markAccept == cfg.markAccept) = true
-      · simp [Rule.matches, Clause.matches, xorb, ha, resolveAction]
-      · have ha' : (m' &&& cfg.markAccept == cfg.markAccept) = false := by simpa using ha
-        simp only [Rule.matches, List.all_cons, List.all_nil, Clause.matches, xorb, ha',
-          Bool.false_eq_true, if_false, Bool.and_true]
-        exact ih m'
-    | verdict v mk => rfl
-    | missing c => rfl
-    | outOfFuel => rfl
-
-/-! ### one tier of the endpoint chain -/
-
-/-- the (jump target, group has enforced policies) pairs of a tier, in rendering order -/
-def tierTargets (t : Tier) : List (String × Bool) :=
-  t.groups.flatMap fun g => g.jumpTargets.map fun c => (c, g.hasNonStaged)
-
-def targetRules (cfg : Cfg) (e : EpCfg) (th : String × Bool) : List Netfilter.Rule :=
-  [({ clauses := [.mark false 0 cfg.markPass], action := .jump th.1 } : Netfilter.Rule)]
-  ++ (if th.2 then
-        (if e.chainType = .untracked then
-          [({ clauses := [.mark false cfg.markAccept cfg.markAccept], action := .notrack } : Netfilter.Rule)] else [])
-        ++ [{ clauses := [.mark false cfg.markAccept cfg.markAccept], action := .ret,
-              comments := ["Return if policy accepted"] }]
-      else [])
-
-theorem groups_flatMap_eq (cfg : Cfg) (e : EpCfg) (t : Tier) :
-    t.groups.flatMap (groupEpRules cfg e) = (tierTargets t).flatMap (targetRules cfg e) := by
-  unfold tierTargets
-  induction t.groups with
-  | nil => rfl
-  | cons g gs ih =>
-    simp only [List.flatMap_cons, List.flatMap_append, ih]
-    congr 1
-    simp only [groupEpRules, List.flatMap_map, targetRules]
-
-/-- reference behaviour of the policy jumps of a tier: each policy (or group) chain is entered only
-while the pass bit is clear; after a group with enforced policies an accept bit returns. -/
-def targetsSeq (cfg : Cfg) (call : String → Mark → Result) (cont : Mark → Result) :
-    List (String × Bool) → Mark → Result
-  | [], m => cont m
-  | th :: ts, m =>
-    match (if m &&& cfg.markPass == 0 then call th.1 m else .returned m) with
-    | .returned m' =>
-      if th.2 && (m' &&& cfg.markAccept == cfg.markAccept) then .returned m'
-      else targetsSeq cfg call cont ts m'
-    | other => other
-
-theorem targets_exact (cfg : Cfg) (e : EpCfg) (env : Env) (call : String → Mark → Result) (pkt : Packet)
-    (rest : List Netfilter.Rule) (ts : List (String × Bool)) (m : Mark) :
-    runRules env call pkt (ts.flatMap (targetRules cfg e) ++ rest) m =
-      targetsSeq cfg call (fun m' => runRules env call pkt rest m') ts m := by
-  induction ts generalizing m with
-  | nil => simp [targetsSeq]
-  | cons th ts ih =>
-    obtain ⟨c, hns⟩ := th
-    simp only [List.flatMap_cons, targetRules, List.append_assoc, List.cons_append, List.nil_append, targetsSeq]
-    rw [runRules]
-    simp only [Rule.matches, List.all_cons, List.all_nil, Clause.matches, xorb, Bool.and_true,
-      Bool.false_eq_true, if_false, resolveAction]
-    -- after the (possibly skipped) jump we are at the return rule(s) with some mark m'
-    have hret : ∀ m', runRules env call pkt
-        ((if hns = true then
-            (if e.chainType = .untracked then
-              [({ clauses := [.mark false cfg.markAccept cfg.markAccept], action := .notrack } : Netfilter.Rule)] else [])
-            ++ [{ clauses := [.mark false cfg.markAccept cfg.markAccept], action := .ret,
-                  comments := ["Return if policy accepted"] }]
-          else []) ++ (ts.flatMap (targetRules cfg e) ++ rest)) m' =
-        if hns && (m' &&& cfg.markAccept == cfg.markAccept) then .returned m'
-        else targetsSeq cfg call (fun m' => runRules env call pkt rest m') ts m' := by
-      intro m'
-      cases hns
-      · simp [ih]
-      · by_cases ha : (m' &&& cfg.markAccept == cfg.markAccept) = true
-        · by_cases hu : e.chainType = .untracked <;>
-            simp [hu, runRules, Rule.matches, Clause.matches, xorb, ha, resolveAction, applyMark]
-        · have ha' : (m' &&& cfg.markAccept == cfg.markAccept) = false := by simpa using ha
-          by_cases hu : e.chainType = .untracked <;>
-            simp [hu, runRules, Rule.matches, Clause.matches, xorb, ha', ih]
-    by_cases hp : (m &&& cfg.markPass == 0) = true
-    · simp only [hp, if_true]
-      cases hc : call c m with
-      | returned m' => simp only; exact hret m'
-      | verdict v mk => rfl
-      | missing c' => rfl
-      | outOfFuel => rfl
-    · have hp' : (m &&& cfg.markPass == 0) = false := by simpa using hp
-      simp only [hp', Bool.false_eq_true, if_false]
-      exact hret m
-
-/-- what happens at the end of a tier -/
-def endOfTier (cfg : Cfg) (e : EpCfg) (t : Tier) (next : Mark → Result) (m : Mark) : Result :=
-  if (e.chainType = .normal ∨ e.chainType = .forward) ∧ t.groups.any (·.hasNonStaged) = true ∧ ¬ t.defaultPass
-      ∧ (m &&& cfg.markPass == 0) = true
-  then .verdict (if cfg.reject then .reject else .drop) m
-  else next m
-
-/-- **One tier of the endpoint chain is exact** (any number of groups and policies, any chain
-type, flow logs on or off): the pass bit is cleared, the policy / group chains are entered in
-order while no policy has passed, an accept returns, and at the end a tier that holds an enforced
-policy and whose default action is not Pass denies the packet unless a policy passed it —
-otherwise evaluation continues with the next tier / the profiles (`rest`). A tier without
-policies renders nothing. -/
-theorem tier_rules_exact (cfg : Cfg) (e : EpCfg) (env : Env) (call : String → Mark → Result) (pkt : Packet)
-    (t : Tier) (rest : List Netfilter.Rule) (m : Mark) :
-    runRules env call pkt (tierRules cfg e t ++ rest) m =
-      if t.groups.isEmpty then runRules env call pkt rest m
-      else targetsSeq cfg call (endOfTier cfg e t (fun m' => runRules env call pkt rest m'))
-        (tierTargets t) (m &&& ~~~ cfg.markPass) := by
-  unfold tierRules
-  by_cases hg : t.groups.isEmpty = true
-  · simp [hg]
-  · have hg' : t.groups.isEmpty = false := by simpa using hg
-    simp only [hg', Bool.false_eq_true, if_false, List.append_assoc, List.cons_append, List.nil_append]
-    rw [runRules]
-    simp only [Rule.matches, List.all_nil, if_true, resolveAction, applyMark]
-    rw [groups_flatMap_eq, targets_exact]
-    congr 1
-    funext m'
-    unfold endOfTier
-    by_cases hct : e.chainType = .normal ∨ e.chainType = .forward
-    · cases hany : t.groups.any (fun g => g.hasNonStaged) <;> cases hdp : t.defaultPass <;>
-        cases hf : cfg.flowLogs <;> cases hr : cfg.reject <;>
-        by_cases hp : (m' &&& cfg.markPass == 0) = true <;>
-        simp [hct, hp, runRules, Rule.matches, Clause.matches, xorb, resolveAction,
-          applyMark, C08.denyAction, hr]
-    · simp [hct]
-
-/-- reference behaviour of the whole tier loop -/
-def tiersSeq (cfg : Cfg) (e : EpCfg) (call : String → Mark → Result) (final : Mark → Result) :
-    List Tier → Mark → Result
-  | [], m => final m
-  | t :: ts, m =>
-    if t.groups.isEmpty then tiersSeq cfg e call final ts m
-    else targetsSeq cfg call (endOfTier cfg e t (tiersSeq cfg e call final ts)) (tierTargets t)
-      (m &&& ~~~ cfg.markPass)
-
-/-- **The tier loop of the endpoint chain is exact for any number of tiers, groups and policies**:
-tiers are evaluated in order; within a tier see `tier_rules_exact`; after the last tier the
-profile section / end of chain (`rest`) follows. -/
-theorem tiers_exact (cfg : Cfg) (e : EpCfg) (env : Env) (call : String → Mark → Result) (pkt : Packet)
-    (tiers : List Tier) (rest : List Netfilter.Rule) (m : Mark) :
-    runRules env call pkt (tiers.flatMap (tierRules cfg e) ++ rest) m =
-      tiersSeq cfg e call (fun m' => runRules env call pkt rest m') tiers m := by
-  induction tiers generalizing m with
-  | nil => simp [tiersSeq]
-  | cons t ts ih =>
-    simp only [List.flatMap_cons, List.append_assoc, tiersSeq]
-    rw [tier_rules_exact]
-    have : (fun m' => runRules env call pkt (ts.flatMap (tierRules cfg e) ++ rest) m') =
-        tiersSeq cfg e call (fun m' => runRules env call pkt rest m') ts := by
-      funext m'; exact ih m'
-    rw [this]
-    split
-    · exact ih m
-    · rfl
-
-/-- non-vacuity: a 7-policy group (two staged) crosses the return stride -/
+/-- a two-tier layout with a 7-policy group crossing the return stride -/
 example : (groupRulesFrom {} 0 ((List.range 7).map fun i => { chain := s!"p{i}", staged := i = 2 ∨ i = 3 })).length = 5 := by
   decide
-example : (0 : Mark) &&& (({} : Cfg).markPass ||| ({} : Cfg).markAccept) = 0 := by decide
+
+/-- `RuleExact` is inhabited: every block-free rule satisfies it (here: allow tcp) -/
+example (env : Env) (henv : EnvCatchAll env) (pkt : Packet) :
+    RuleExact {} env pkt { action := "allow", protocol := some (.name "tcp") } := by
+  apply ruleExact_of_le2 {} env pkt _ (by constructor <;> decide) henv (Or.inr (by intro t c h; cases h))
+  intro rc h
+  cases hv : pkt.v6 <;> rw [hv] at h <;>
+    (have : rc = { action := "allow", protocol := some (.name "tcp") } := by
+       simp [filterRuleToIPVersion, filterNets] at h; exact h.symm
+     subst this; decide)
 
 end CalicoVerif.C09
